@@ -237,6 +237,60 @@ func runC14(w *World, r *Report) {
 		r.Check(byKey >= 2, "C14.map-order", "concatMaps writes results by key", cm.Pos(), fmt.Sprintf("%d SetMapIndex writes", byKey), "map concatenation no longer writes by key")
 	}
 
+	// ---- group-key-local: which group a tool-call fragment joins depends on the fragment alone
+	r.Rule("C14.group-key-local", "concatToolCalls: the group key of a fragment is read from that fragment (chunks[i].Index), never from loop-carried state (arrival order)", 1)
+	{
+		ctc := w.Fn("schema", "concatToolCalls")
+		fIdx := w.Field("schema", "ToolCall", "Index")
+		n := 0
+		instrs(ctc, func(in ssa.Instruction) {
+			mu, ok := in.(*ssa.MapUpdate)
+			if !ok {
+				return
+			}
+			if _, isMk := mu.Map.(*ssa.MakeMap); !isMk {
+				return
+			}
+			n++
+			// key = *p ; p must be a load of chunks[i].Index on every incoming edge
+			var bad string
+			var check func(v ssa.Value, d int)
+			seen := map[ssa.Value]bool{}
+			check = func(v ssa.Value, d int) {
+				if d > 6 || seen[v] || bad != "" {
+					return
+				}
+				seen[v] = true
+				switch x := v.(type) {
+				case *ssa.UnOp:
+					if f, _ := loadedField(x); f != nil && sameField(f, fIdx) {
+						return
+					}
+					check(x.X, d+1)
+				case *ssa.Phi:
+					// a phi at a loop header carries a value from an earlier iteration
+					for i, e := range x.Edges {
+						p := x.Block().Preds[i]
+						if x.Block().Dominates(p) && x.Block() != p || blockReaches(x.Block(), p) && x.Block().Dominates(p) {
+							bad = "the key can come from an earlier iteration (loop-carried " + valText(x) + ")"
+							return
+						}
+						check(e, d+1)
+					}
+				case *ssa.Const:
+					bad = "constant key"
+				default:
+					bad = "the key is " + valText(v) + ", not the fragment's own Index"
+				}
+			}
+			check(mu.Key, 0)
+			r.Check(bad == "", "C14.group-key-local", fmt.Sprintf("concatToolCalls: group map write #%d keyed by the fragment's own index", n), mu.Pos(), "m[*chunks[i].Index]", "fragments are grouped by state carried across iterations ("+bad+"): a re-sorted prefix changes which call is 'the most recent', so concat(prefix)+rest differs from concat(all)")
+		})
+		if n == 0 {
+			r.Fail("C14.group-key-local", "concatToolCalls groups fragments", ctc.Pos(), "no write to the group map")
+		}
+	}
+
 	// ---- inputs-immutable
 	r.Rule("C14.inputs-immutable", "concat functions do not write through their inputs nor adopt input pointers as accumulators", 4)
 	for _, n := range []string{"ConcatMessages", "concatToolCalls", "concatMessageArray"} {
